@@ -154,6 +154,47 @@ def body_type_size(h, shape, k):
     h.prove('size_positive', out.value >= 1)
 
 
+
+def body_type_size_history(h, elem_kind, first):
+    """the size of a type is a function of its shape alone - not of which types the same compilation was asked about
+    before.  Two types that agree in everything but their bounds (qbee.expr.Type.__eq__ ignores array_dims) are sized
+    one after the other on the SAME, real compilation context; each must get its own shape's size."""
+    from qbee.compiler import CompilationUnit
+    ctx = CompilationUnit()
+    if elem_kind == 'record':
+        tb = object.__new__(TypeBlock)
+        tb.name = 'rec'
+        tb.fields = {'a': Type.INTEGER, 'b': Type.LONG, 'c': Type.STRING}
+        ctx.user_types['rec'] = tb
+        base, uname, esize = BuiltinType.USER_DEFINED, 'rec', 3
+    else:
+        base, uname, esize = BuiltinType.LONG, None, 1
+
+    def static(tag, rank):
+        dims, n = [], esize
+        for d in range(rank):
+            lb = h.int(f'{tag}.lb{d}', -32768, 32767)
+            ub = h.int(f'{tag}.ub{d}', -32768, 32767)
+            h.require(lb <= ub)
+            dims.append(Dim(lb, ub))
+            n = n * (ub - lb + 1)
+        return Type(base, is_array=True, user_type_name=uname, array_dims=dims, is_nodim_array=False), n + 3 + 2 * rank
+
+    if first == 'dynamic':
+        t1, w1 = Type(base, is_array=True, user_type_name=uname, array_dims=[], is_nodim_array=True), 1
+    elif first == 'scalar':
+        t1 = Type(base, is_array=False, user_type_name=uname, array_dims=None, is_nodim_array=False)
+        w1 = esize
+    else:
+        t1, w1 = static('first', 1 if first == 'static1' else 2)
+    t2, w2 = static('second', 1)
+    for tag, t, w in (('first', t1, w1), ('second', t2, w2), ('first_again', t1, w1)):
+        out = h.call(memlayout.get_type_size, ctx, t)
+        if not out.returned:
+            h.prove(tag + '.no_exception', False, detail=repr(out))
+            return
+        h.prove(tag + '.size_is_that_of_its_own_shape', out.value == w, detail=f'{out.value!r}')
+
 # ------------------------------------------------------------------ get_local_var_idx / get_global_var_idx
 
 def layout_world(h, n_name='n'):
@@ -203,13 +244,13 @@ def body_local_idx(h):
             k = L.k
             return [('distinct_names', implies(name(k) == var, k == j))] + \
                    [('psum_def', f) for f in P_facts(k)] + \
-                   [('prefix_sum', L['idx'] == P(k)), ('not_found_yet', k <= j)]
+                   [('one_cell_per_parameter', L['idx'] == k), ('not_found_yet', k <= j)]
 
         def inv2(L):
             k = L.k
             return [('distinct_names', implies(name(nP + k) == var, nP + k == j))] + \
                    [('psum_def', f) for f in P_facts(nP + k)] + \
-                   [('prefix_sum', L['idx'] == P(nP + k)), ('not_found_yet', nP + k <= j)]
+                   [('prefix_sum', L['idx'] == nP + P(nP + k) - P(nP)), ('not_found_yet', nP + k <= j)]
         h.set_loop(qn, 1, LoopSpec(inv1, assume_only={'distinct_names', 'psum_def'}))
         h.set_loop(qn, 2, LoopSpec(inv2, assume_only={'distinct_names', 'psum_def'}))
     out = h.call(memlayout.get_local_var_idx, r, var)
@@ -219,7 +260,10 @@ def body_local_idx(h):
     if not out.returned:
         h.prove('no_exception', False, detail=repr(out))
         return
-    h.prove('index_is_prefix_sum', out.value == P(j))
+    # the call protocol (cpu.frame, call.args) passes ONE cell per argument whatever the parameter's type - a reference,
+    # or a value the frame instruction moves to a temporary - so parameter k lives in cell k and the locals follow
+    want = ite(j < nP, j, nP + P(j) - P(nP)) if h.symbolic else (j if j < nP else nP + P(j) - P(nP))
+    h.prove('parameter_k_is_cell_k.locals_follow_by_prefix_sum', out.value == want)
 
 
 def body_global_idx(h):
@@ -261,7 +305,8 @@ def body_sizes(h, which, n):
     out = h.call(f, r)
     want = 0
     for i in range(n):
-        want = want + G.size(i)
+        # one cell per parameter (a reference / a single value); a local occupies the size of its type
+        want = want + (1 if which == 'params' else G.size(i))
     if not out.returned:
         h.prove('no_exception', False, detail=repr(out))
         return
@@ -348,6 +393,8 @@ CONTRACTS = [
              trusted=['record arity enumerated 1..4 and array rank 1..3 (nesting depth unbounded by the function\'s own contract)']),
     Contract('memlayout.get_local_var_idx', PROPS, ['qvm.memlayout:get_local_var_idx'], body_local_idx),
     Contract('memlayout.get_global_var_idx', PROPS, ['qvm.memlayout:get_global_var_idx'], body_global_idx),
+    Contract('memlayout.type_size.history', PROPS, ['qvm.memlayout:get_type_size'], body_type_size_history,
+             cases=[(e, f) for e in ('builtin', 'record') for f in ('static1', 'static2', 'dynamic', 'scalar')]),
     Contract('memlayout.sizes', PROPS, ['qvm.memlayout:get_params_size', 'qvm.memlayout:get_local_vars_size'], body_sizes,
              cases=[(w, n) for w in ('params', 'locals') for n in (0, 1, 2, 3, 4)]),
     Contract('memlayout.get_dotted_index', PROPS + ['C13'], ['qvm.memlayout:get_dotted_index'], body_dotted,
